@@ -65,11 +65,11 @@ Definition run (x : sx) : sx :=
     | None => SL [SZ 9]
     end
   else if mode =? 1 then
-    (* (1 nest|-1 cols ending nerrs): judge of Spec.v; answers (verdict known) *)
+    (* (1 nest|-1 cols ending nerrs chain): judge of Spec.v; answers (verdict known-indent known-chain) *)
     let n := sx_z (sx_nth x 1) in
-    let o := mkobs (if n <? 0 then None else Some (Z.to_nat n)) (sx_to_nat (sx_nth x 2))
+    let o := mkobs (if n <? 0 then None else Some (Z.to_nat n)) (sx_to_nat (sx_nth x 2)) (sx_to_nat (sx_nth x 5))
                    (dec_ending (sx_z (sx_nth x 3)) (sx_to_nat (sx_nth x 4))) in
-    SL [sx_bool (judge o); sx_bool (Known_C09 o)]
+    SL [sx_bool (judge o); sx_bool (Known_indent o); sx_bool (Known_chain o)]
   else if mode =? 2 then
     (* (2 (kinds)): token stream of the spine; (2 (9) n): lamblock n *)
     let ks := sx_zs (sx_nth x 1) in
